@@ -18,6 +18,11 @@ Clause(c) ==
   IF c.lib.exc # "" THEN "C02_Total"
   ELSE IF c.events > Budget(Len(c.b)) THEN "C02_Budget"
   ELSE IF c.lib.valid /\ c.maxName > 253 THEN "C02_NamesShort"
+  \* the same octets handed over by an IPv6 socket (with the scope id of the interface): total as well, and the same verdict
+  ELSE IF c.scoped.exc # "" THEN "C02_Total"
+  ELSE IF c.scoped.valid # c.lib.valid \/ (c.lib.valid /\ (c.scoped.n # Len(c.lib.rrs) \/ c.scoped.nq # Len(c.lib.qs))) THEN "C02_ScopeChangesNothing"
+  \* a large well-formed datagram (beyond StrictParse's bound) on which the library and the harness's own strict parser disagree
+  ELSE IF c.bigDiffers = 1 THEN "C02_FaithfulLarge"
   ELSE IF ~c.faith THEN ""
   ELSE LET p == StrictParse(c.b) IN
        IF ~p.ok \/ ~p.supported THEN ""
